@@ -146,7 +146,7 @@ def run_shard(spec, tier, seed, budget_s):
             both_origins(sh, doc, f'{seed}-{j}', 'product.' + name, PARTS)
         rng = random.Random(f'{seed}-random-{i}')
         k = 0
-        target = {'quick': 100, 'thorough': 3000}[tier]
+        target = {'quick': 300, 'thorough': 4000}[tier]
         while k < target and not sh.out_of_time():
             k += 1
             size = rng.choice(['tiny', 'small', 'small', 'medium'] + (['large'] if tier == 'thorough' else []))
